@@ -31,3 +31,14 @@ def stream(scc, config=None, **_):
   for (key, contract, summary, observed, required) in fails:
     out.append(f"  [{key}] {contract}: {summary}")
   return True, "\n".join(out)
+
+
+def doubling(scc, scc_doubled, config=None, **_):
+  """metamorphic contract `doubled control codes act once`: the two streams, natively"""
+  logging.disable(logging.CRITICAL)
+  import rtc.c08 as C
+  f = C.evaluate_doubling(scc, scc_doubled, config)
+  head = f"SCC, every control pair once:\n{scc.strip()}\n\nSCC, every control pair twice:\n{scc_doubled.strip()}\n"
+  if f is None:
+    return False, head + "\nboth streams show the same sequence of screens"
+  return True, head + f"\n[{f[0]}] {f[2]}"
